@@ -483,13 +483,15 @@ class Frame:
             self.ev(st.value)
         elif isinstance(st, (ast.For, ast.AsyncFor)):
             it = self.ev(st.iter)
-            el = elem(it)
+            els = list(it.elts) if isinstance(it, Tup) and it.elts and len(
+                it.elts) <= 6 else [elem(it)]
             for _ in range(2):
-                other = self.fork()
-                other.assign(st.target, el, st)
-                other.block(st.body)
-                other.dead = False     # break/continue/return inside loop
-                self.merge(other)
+                for el in els:          # literal tuples are unrolled
+                    other = self.fork()
+                    other.assign(st.target, el, st)
+                    other.block(st.body)
+                    other.dead = False  # break/continue/return inside loop
+                    self.merge(other)
             self.block(st.orelse)
         elif isinstance(st, ast.While):
             for _ in range(2):
@@ -658,6 +660,8 @@ class Frame:
         return IMM        # module-level constant / builtin
 
     def ev_JoinedStr(self, e):
+        for v in e.values:
+            self.ev(v)
         return IMM
 
     def ev_Lambda(self, e):
@@ -766,6 +770,22 @@ class Frame:
 
     def ev_Starred(self, e):
         return self.ev(e.value)
+
+    def ev_Yield(self, e):
+        if e.value is not None:
+            self.ev(e.value)
+        return IMM
+
+    def ev_YieldFrom(self, e):
+        self.ev(e.value)
+        return IMM
+
+    def ev_Await(self, e):
+        return self.ev(e.value)
+
+    def ev_FormattedValue(self, e):
+        self.ev(e.value)
+        return IMM
 
     def ev_Slice(self, e):
         return IMM
